@@ -184,6 +184,11 @@ func (info *Info) Encode() []byte {
 		total += len(lookupList)
 	}
 
+	if scriptListOffset > 0xFFFF || featureListOffset > 0xFFFF || lookupListOffset > 0xFFFF {
+		// the header uses 16-bit offsets
+		panic("script list and feature list too large")
+	}
+
 	buf := make([]byte, total)
 	copy(buf, []byte{
 		0, 1, // major version
